@@ -44,23 +44,52 @@ type op struct {
 	B    string `json:"b,omitempty"`
 	Mode string `json:"mode,omitempty"` // unlink: mount|http; write: create|update; rmdir: data|nodata
 	Seq  int    `json:"seq,omitempty"`  // determines the fresh content / link id of the op
+	// Form of the content a plain/write op stores: "chunks", "inline" (Entry.Content, no chunks) or
+	// "empty" (neither); "" = chosen by Seq so that all forms and transitions occur everywhere
+	Form string `json:"form,omitempty"`
 }
 
-func (o op) short() string { return o.Kind + ":" + o.A + ">" + o.B + ":" + o.Mode }
+func (o op) short() string { return o.Kind + ":" + o.A + ">" + o.B + ":" + o.Mode + ":" + o.Form }
 
 type content struct {
 	Chunks []string `json:"chunks"`
 	Mtime  int64    `json:"mtime"`
 	Size   uint64   `json:"size"`
 	Tag    string   `json:"tag"`
+	Inline string   `json:"inline,omitempty"` // Entry.Content (small files stored in the entry itself)
 }
 
 func (c content) equal(d content) bool {
-	return strings.Join(c.Chunks, " ") == strings.Join(d.Chunks, " ") && c.Mtime == d.Mtime && c.Size == d.Size && c.Tag == d.Tag
+	return strings.Join(c.Chunks, " ") == strings.Join(d.Chunks, " ") && c.Mtime == d.Mtime && c.Size == d.Size && c.Tag == d.Tag && c.Inline == d.Inline
 }
 
-func freshContent(seq int) content {
-	return content{Chunks: []string{lib.Fid(3, uint64(seq)+1, 0x2b2b2b2b)}, Mtime: 1600000000 + int64(seq), Size: 100 + uint64(seq), Tag: fmt.Sprintf("c%d", seq)}
+func (c content) form() string {
+	switch {
+	case len(c.Chunks) > 0:
+		return "chunks"
+	case c.Inline != "":
+		return "inline"
+	}
+	return "empty"
+}
+
+var forms = []string{"chunks", "inline", "empty"}
+
+func (o op) content() content {
+	form := o.Form
+	if form == "" {
+		form = forms[o.Seq%3]
+	}
+	c := content{Mtime: 1600000000 + int64(o.Seq), Tag: fmt.Sprintf("c%d", o.Seq)}
+	switch form {
+	case "chunks":
+		c.Chunks = []string{lib.Fid(3, uint64(o.Seq)+1, 0x2b2b2b2b)}
+		c.Size = 100 + uint64(o.Seq)
+	case "inline":
+		c.Inline = fmt.Sprintf("inline content %d", o.Seq)
+		c.Size = uint64(len(c.Inline))
+	}
+	return c
 }
 
 func linkId(seq int) []byte {
@@ -133,7 +162,7 @@ func (m *model) apply(o op) (ok bool, class string) {
 	case "plain":
 		class = "dst-" + m.kindOf(o.A)
 		m.remove(o.A)
-		m.names[o.A] = &nameState{Plain: freshContent(o.Seq)}
+		m.names[o.A] = &nameState{Plain: o.content()}
 		return true, class
 	case "link":
 		a, b := m.names[o.A], m.names[o.B]
@@ -163,9 +192,9 @@ func (m *model) apply(o op) (ok bool, class string) {
 		}
 		class = m.kindOf(o.A)
 		if a.Link == 0 {
-			a.Plain = freshContent(o.Seq)
+			a.Plain = o.content()
 		} else {
-			m.links[a.Link].C = freshContent(o.Seq)
+			m.links[a.Link].C = o.content()
 		}
 		return true, class
 	case "rename":
@@ -275,14 +304,20 @@ func (w *world) startCase(nops int) {
 }
 
 func pbContent(name string, c content) *filer_pb.Entry {
-	return &filer_pb.Entry{Name: name,
+	e := &filer_pb.Entry{Name: name,
 		Attributes: &filer_pb.FuseAttributes{Mtime: c.Mtime, Crtime: 1600000000, FileMode: 0644, Uid: 1000, Gid: 1000, FileSize: c.Size, Mime: "text/plain"},
-		Chunks:     []*filer_pb.FileChunk{{FileId: c.Chunks[0], Offset: 0, Size: c.Size, Mtime: c.Mtime * 1e9}},
 		Extended:   map[string][]byte{"tag": []byte(c.Tag)}}
+	if len(c.Chunks) > 0 {
+		e.Chunks = []*filer_pb.FileChunk{{FileId: c.Chunks[0], Offset: 0, Size: c.Size, Mtime: c.Mtime * 1e9}}
+	}
+	if c.Inline != "" {
+		e.Content = []byte(c.Inline)
+	}
+	return e
 }
 
 func contentOf(e *filer.Entry) content {
-	return content{Chunks: lib.ChunkIds(e.Chunks), Mtime: e.Attr.Mtime.Unix(), Size: e.Attr.FileSize, Tag: lib.EntryTag(e)}
+	return content{Chunks: lib.ChunkIds(e.Chunks), Mtime: e.Attr.Mtime.Unix(), Size: e.Attr.FileSize, Tag: lib.EntryTag(e), Inline: string(e.Content)}
 }
 
 func (w *world) lookup(p string) *filer_pb.Entry {
@@ -309,7 +344,7 @@ func (w *world) exec(o op) string {
 	}
 	switch o.Kind {
 	case "plain":
-		return create(parentOf(o.A), pbContent(nameOf(o.A), freshContent(o.Seq)))
+		return create(parentOf(o.A), pbContent(nameOf(o.A), o.content()))
 	case "link":
 		old := w.lookup(o.A)
 		if old == nil {
@@ -325,7 +360,7 @@ func (w *world) exec(o op) string {
 			return "update old: " + err.Error()
 		}
 		return create(parentOf(o.B), &filer_pb.Entry{Name: nameOf(o.B), Attributes: old.Attributes, Chunks: lib.CloneChunks(old.Chunks),
-			Extended: old.Extended, HardLinkId: old.HardLinkId, HardLinkCounter: old.HardLinkCounter})
+			Extended: old.Extended, Content: old.Content, HardLinkId: old.HardLinkId, HardLinkCounter: old.HardLinkCounter})
 	case "unlink":
 		e := w.lookup(o.A)
 		deleteData := true
@@ -342,7 +377,7 @@ func (w *world) exec(o op) string {
 		if e == nil {
 			return "lookup failed"
 		}
-		n := pbContent(nameOf(o.A), freshContent(o.Seq))
+		n := pbContent(nameOf(o.A), o.content())
 		n.HardLinkId, n.HardLinkCounter = e.HardLinkId, e.HardLinkCounter
 		if o.Mode == "update" {
 			if _, err := fs.UpdateEntry(ctx, &filer_pb.UpdateEntryRequest{Directory: parentOf(o.A), Entry: n}); err != nil {
@@ -553,6 +588,9 @@ func (w *world) step(o op) (bool, bool) {
 		case "write":
 			if strings.HasPrefix(class, "linked") {
 				r.Count("writes_through_linked_name", 1)
+				if st := before.names[o.A]; st != nil && st.Link != 0 {
+					r.Count("linked_write_"+before.links[st.Link].C.form()+"_to_"+o.content().form(), 1)
+				}
 			}
 		}
 		if p == nil {
@@ -752,6 +790,43 @@ func runBatch(r *lib.Run, mode, kind string, shard, nshards, sampleOneIn int) {
 				}
 			}
 		}
+		// content forms of the shared record: chunks, inline Content, neither; every transition
+		// between them, written through either name, by CreateEntry or UpdateEntry, then once more
+		// through the other name, then one name removed
+		nform := 0
+		for _, f1 := range forms {
+			for _, f2 := range forms {
+				for _, f3 := range forms {
+					for _, via := range []string{"create", "update"} {
+						for _, writer := range []string{"/h/n1", "/g/n3"} {
+							nform++
+							if nform%nshards != shard || (sampleOneIn > 1 && f3 != "empty" && nform%2 == 0) {
+								continue
+							}
+							other := "/g/n3"
+							if writer == other {
+								other = "/h/n1"
+							}
+							ops := []op{{Kind: "plain", A: "/h/n1", Form: f1}, {Kind: "link", A: "/h/n1", B: "/g/n3"},
+								{Kind: "write", A: writer, Mode: via, Form: f2}, {Kind: "write", A: other, Mode: via, Form: f3},
+								{Kind: "link", A: other, B: "/h/n2"}, {Kind: "unlink", A: writer, Mode: "mount"}, {Kind: "write", A: "/h/n2", Mode: "create"}}
+							key := kind + "|forms"
+							for i := range ops {
+								seq++
+								ops[i].Seq = seq
+								key += "|" + ops[i].short()
+							}
+							w.runSeq(ops)
+							r.Count("sequences_content_forms", 1)
+							r.Nontrivial(key)
+							if nform == 7 {
+								r.Sample(map[string]interface{}{"store": kind, "ops": ops})
+							}
+						}
+					}
+				}
+			}
+		}
 		r.Note("exhaustive", fmt.Sprintf("all sequences of %d applicable ops over a %d-op alphabet (3 names + 1 spare, identities created on demand), sampled 1 in %d; sequences whose prefix already showed a listed finding are skipped", L, len(alpha), sampleOneIn))
 	case "rand":
 		nseq, nops := r.Pick(45, 600), 40
@@ -805,7 +880,7 @@ func runBatch(r *lib.Run, mode, kind string, shard, nshards, sampleOneIn int) {
 func main() {
 	r := lib.Start("C21", "exploration")
 	r.SetRule("histories of plain-create / link (UpdateEntry old + CreateEntry new, as Dir.Link) / unlink (mount: IsDeleteData=counter<=1, http: true) / write through one name (CreateEntry or UpdateEntry) / AtomicRenameEntry / overwrite of a linked name by a plain file or by a name of another identity / recursive directory delete (linked names at depth 1, 2 and 3 below the deleted folder, other names of the identity inside or outside the tree, with and without data deletion) / directory renamed away and back, over 6 names in 4 directories with link identities created on demand, on a real Filer over leveldb/leveldb2/leveldb3; after every op each name is read (FindEntry + parent listing) and each identity's KV record decoded and compared with the model. distinct = distinct (store, op sequence); non-trivial = at least one applicable op executed")
-	r.Assume("content and attributes compared: chunk file ids, mtime (seconds), file size, extended attribute; the link counter a client writes is the one it read plus one (single client)")
+	r.Assume("content and attributes compared: chunk file ids, inline content, mtime (seconds), file size, extended attribute (the shared record carries chunks, inline Entry.Content, or neither); the link counter a client writes is the one it read plus one (single client)")
 	r.Assume("renaming one name of an identity onto another name of the same identity, and linking a name onto itself, are not generated (POSIX defines them as no-ops; the statement does not say)")
 
 	mode, kind, shard, nshards, sample := "", "leveldb", 0, 1, 1
